@@ -491,6 +491,8 @@ func runC15(r *Run) {
 	checkBlockedAddrs(r, "R7", "distribution")
 	r.Import("R4/C14.", []string{"R2"}, runC14)
 	r.Import("R5/C02.", []string{"R3"}, runC02)
+	r.Rule("R10", "see C05 R2 and R6 (imported): an Ethereum transaction — a direct call of the staking or distribution precompile included — runs on a cache context that is written only when the execution succeeded, and an out-of-gas panic inside a precompile is a failed execution: the SDK's staking and distribution operations are not atomic on their own (pool transfer, then validator update, then reward-period bookkeeping), so a failed call that is not rolled back leaves exactly the half-done state the module invariants forbid")
+	r.Import("R10/C05.", []string{"R2", "R6"}, runC05)
 }
 
 func keysOfFn(m map[*ssa.Function]bool) []*ssa.Function {
